@@ -256,6 +256,14 @@ def mon_C05(run):
         if not np.isclose(r["fval"], np.mean(yv), rtol=1e-12, atol=1e-300):
             run.v("C05", "fval is not the mean of yval_vec", "fval-mean", (r["fval"], float(np.mean(yv))))
         se = [np.std(yv, ddof=d) / np.sqrt(len(yv)) for d in (0, 1)] if len(yv) > 1 else [0.0]
+        if len(se) == 2:
+            # which convention (population / sample SD) this run is consistent with; a check may pin the convention it
+            # measured on runs with several final samples (job['sem_ddof']) so that all runs must follow the same one
+            for d_, s_ in enumerate(se):
+                if np.isclose(r["fsd"], s_, rtol=1e-12, atol=1e-300):
+                    run.stats["sem_match_ddof%d" % d_] += 1
+            if run.job.get("sem_ddof") is not None:
+                se = [se[int(run.job["sem_ddof"])]]
         if not any(np.isclose(r["fsd"], s_, rtol=1e-12, atol=1e-300) for s_ in se):
             run.v("C05", "fsd is not the standard error of yval_vec", "fsd-sem", (r["fsd"], se))
         if run.mode == "spec":
